@@ -250,7 +250,11 @@ class Parser:
         matching_patterns = []
         for pattern in patterns:
             # use a matching capture to get the regex performance
-            mo = re.search(f'({pattern})', name)
+            try:
+                mo = re.search(f'({pattern})', name)
+            except re.error as exc:
+                self.logger.error(f'Parser.get_best_pattern: invalid pattern={pattern} - {exc}')
+                continue
             if mo:
                 matching_patterns.append((pattern, mo.group()))
         self.logger.trace(f'Parser.get_best_pattern: found patterns={patterns} for {name}')
